@@ -31,12 +31,14 @@ type State struct {
 	top     *Term          // allocation watermark: every existing reference is <= top
 	boxes   []*localBox    // heap cells of local variables of the frames being executed
 	facts   map[string]*Term // term -> literal it is known to equal on this path
+	escaped map[string]bool  // references of local boxes that unknown code may reach (through stored closures / pointers)
 }
 
 // localBox is an escaping local variable (captured by a closure or address-taken).
 type localBox struct {
-	addr *Addr
-	t    types.Type
+	addr  *Addr
+	t     types.Type
+	alloc *ssa.Alloc
 }
 
 type closureInfo struct {
@@ -81,6 +83,12 @@ func (s *State) clone() *State {
 	}
 	n.fresh = append([]*Term(nil), s.fresh...)
 	n.boxes = append([]*localBox(nil), s.boxes...)
+	if len(s.escaped) > 0 {
+		n.escaped = make(map[string]bool, len(s.escaped))
+		for k, v := range s.escaped {
+			n.escaped[k] = v
+		}
+	}
 	if len(s.facts) > 0 {
 		n.facts = make(map[string]*Term, len(s.facts))
 		for k, v := range s.facts {
@@ -394,7 +402,32 @@ func (r *Run) load(st *State, a *Addr, t types.Type, te TypeEnv) *Val {
 	return v
 }
 
+// markEscaped records that the references contained in v (and, for closures, in their bindings)
+// are reachable from the heap.
+func (st *State) markEscaped(v *Val, depth int) {
+	if v == nil || depth > 3 {
+		return
+	}
+	for _, l := range v.L {
+		if l.Sort != SInt || l.Kind == KLit {
+			continue
+		}
+		if st.escaped == nil {
+			st.escaped = map[string]bool{}
+		}
+		st.escaped[l.String()] = true
+		if ci, ok := st.closure[l.String()]; ok {
+			for _, b := range ci.bindings {
+				st.markEscaped(b, depth+1)
+			}
+		}
+	}
+}
+
 func (r *Run) store(st *State, a *Addr, val *Val, te TypeEnv) {
+	if a.Kind != ALocal && len(st.boxes) > 0 {
+		st.markEscaped(val, 0)
+	}
 	ls := layoutTE(val.T, te)
 	if len(ls) != len(val.L) {
 		// value typed differently from its leaves (e.g. untyped nil)
@@ -764,7 +797,71 @@ func (r *Run) havocLoopHeap(st *State, fr *Frame, h *ssa.BasicBlock) {
 		}
 	}
 	if all {
+		// keep the frame's own escaping locals that the loop body neither stores to nor hands out
+		touched := map[*ssa.Alloc]bool{}
+		var mark func(v ssa.Value)
+		mark = func(v ssa.Value) {
+			switch x := v.(type) {
+			case *ssa.Alloc:
+				touched[x] = true
+			case *ssa.MakeClosure:
+				for _, b := range x.Bindings {
+					mark(b)
+				}
+			}
+		}
+		for b := range fr.loops.body[h] {
+			for _, in := range b.Instrs {
+				switch x := in.(type) {
+				case *ssa.Store:
+					mark(x.Addr)
+					mark(x.Val)
+				case ssa.CallInstruction:
+					for _, a := range x.Common().Args {
+						mark(a)
+					}
+					mark(x.Common().Value)
+				case *ssa.MakeClosure:
+					mark(x)
+				case *ssa.MakeInterface:
+					mark(x.X)
+				}
+			}
+		}
+		// a closure created elsewhere in the function may be called (dynamically) inside the loop
+		dyn := false
+		for b := range fr.loops.body[h] {
+			for _, in := range b.Instrs {
+				if c, ok := in.(ssa.CallInstruction); ok && c.Common().StaticCallee() == nil {
+					if _, isBuiltin := c.Common().Value.(*ssa.Builtin); !isBuiltin {
+						dyn = true
+					}
+				}
+			}
+		}
+		if dyn {
+			for _, b := range fr.fn.Blocks {
+				for _, in := range b.Instrs {
+					if mc, ok := in.(*ssa.MakeClosure); ok {
+						mark(mc)
+					}
+				}
+			}
+		}
+		type saved struct {
+			b *localBox
+			v *Val
+		}
+		var keep []saved
+		for _, b := range st.boxes {
+			if b.alloc != nil && !touched[b.alloc] && b.alloc.Parent() == fr.fn && !st.escaped[b.addr.Ref.String()] {
+				keep = append(keep, saved{b, r.load(st, b.addr, b.t, fr.te)})
+			}
+		}
 		st.havocAll()
+		for _, k := range keep {
+			r.store(st, k.b.addr, k.v, fr.te)
+		}
 		return
 	}
 	for c := range comps {
@@ -1133,7 +1230,7 @@ func (r *Run) execInstr(st *State, fr *Frame, in ssa.Instruction, b *ssa.BasicBl
 		}
 		if x.Heap {
 			a := r.newObject(st, el, te, x.Comment)
-			st.boxes = append(st.boxes, &localBox{addr: a, t: el})
+			st.boxes = append(st.boxes, &localBox{addr: a, t: el, alloc: x})
 			fr.regs[x] = ptrVal(x.Type(), a)
 		} else {
 			cellCounter++
@@ -1286,6 +1383,14 @@ func (r *Run) execInstr(st *State, fr *Frame, in ssa.Instruction, b *ssa.BasicBl
 			ci.bindings = append(ci.bindings, r.valueOf(st, fr, bnd))
 		}
 		st.closure[id.String()] = ci
+		// closure tags: facts that hold of every value of this closure by its own contract
+		if cspec, _ := r.v.specFor(fn); cspec != nil {
+			for _, c := range cspec.ClausesOf("tag") {
+				for _, tg := range strings.Fields(c.Text) {
+					st.assume(UF("tag!"+tg, SBool, id))
+				}
+			}
+		}
 		fr.regs[x] = &Val{T: x.Type(), L: []*Term{id}}
 	case *ssa.MakeMap:
 		ref := st.freshRef()
